@@ -406,6 +406,7 @@ def main():
             "notes": ctx.notes,
         }
         if len(names) == 0:
+            cov.pop("obligations"); cov.pop("discharged")
             cov["explanation"] = "no theorem inventory available in this run (build failed before audit)"
             cov["evaluations"] = max(1, cov["translator_entries_validated"])
             cov["distinct_nontrivial"] = max(2, cov["translator_entries_validated"])
